@@ -60,7 +60,7 @@ pub fn random_name(rng: &mut Rng) -> Vec<u8> {
         0 => Vec::new(),
         // control characters inside the name: the kernel stores whatever PR_SET_NAME was given
         11 => rng.pick(&[&b"ab\ncd"[..], b"\nworker", b"l1\nl2\n\nl4", b"x\n", b"a\tb\rc", b"\n\n", b"end\n \n"]).to_vec(),
-        12 => rng.pick(&[&b"a\0hidden"[..], b"\x01\x02\x7f", b"q\x1b[31m", b"fifteen-chars-x", b"\xc3\xa9\n\xff"]).to_vec(),
+        12 => rng.pick(&[&b"a\0hidden"[..], b"\x01\x02\x7f", b"q\x1b[31m", b"fifteen-chars-x", b"\xc3\xa9\n\xc3\xa9"]).to_vec(),
         1 => b"  ".to_vec(),
         2 => "thr\u{e9}\u{e4}d-\u{4e16}".as_bytes().to_vec(),
         3 => b"fifteen-chars-xx".to_vec(),
